@@ -11,6 +11,6 @@ if ! patch -p1 -s --dry-run < "$d/patch.diff" >/dev/null 2>&1; then echo "$id FA
 PYTHONDONTWRITEBYTECODE=1 PYTHONPATH="$scratch" timeout 600 /venv/bin/python ".demo_$id.py" >/tmp/seed_clean_$id.log 2>&1; c=$?
 patch -p1 -s < "$d/patch.diff"
 PYTHONDONTWRITEBYTECODE=1 PYTHONPATH="$scratch" timeout 600 /venv/bin/python ".demo_$id.py" >/tmp/seed_mut_$id.log 2>&1; m=$?
-b=$(REPO_DIR="$scratch" /tmp/wt/run_baseline.sh | head -1)
+b=$(REPO_DIR="$scratch" /verif/tools/run_baseline.sh | head -1)
 if [ $c -eq 0 ] && [ $m -ne 0 ] && [ "$b" = "baseline stable tests: 39/39 pass" ]; then echo "$id OK clean=$c mutated=$m $b"; exit 0; fi
 echo "$id FAIL clean=$c mutated=$m $b"; exit 1
